@@ -141,7 +141,10 @@ LineSeq(n) ==
             <<W(w), Raw("<b>{TAB}raw</b>", "<b>{TAB}raw</b>"), W("x>{TAB}y")>>,
             (* an escaped backslash directly before a construct is a backslash and does not disable the construct *)
             <<W(w), Raw("\\\\~~gone~~", "\\<del>gone</del>"), Raw("\\\\`co`", "\\<code>co</code>")>>,
-            <<Raw("\\\\*em*", "\\<em>em</em>"), W(w)>> >>)          \* a tab directly behind ">" inside the text
+            <<Raw("\\\\*em*", "\\<em>em</em>"), W(w)>>,
+            <<W(w), Raw("\\\\<b>x</b>", "\\<b>x</b>"), Raw("\\\\<http://x.y>", "\\<a href=\"http://x.y\">http://x.y</a>")>>,
+            (* the other forms of raw HTML in their shortest spellings *)
+            <<W(w), Raw("<!---->", "<!---->"), Raw("<??>", "<??>"), Raw("<!a b>", "<!a b>")>> >>)          \* a tab directly behind ">" inside the text
 
 (* spelling variants: every action draws one index v and derives its free spelling choices from it, so that in
    simulation mode every kind of block is typed about equally often; over many documents all combinations occur *)
@@ -654,6 +657,12 @@ LinesTyped   == \A i \in DOMAIN nodes : i = 1 \/ (nodes[i].ln >= 1 /\ (nodes[i].
 (* the resolution table equals "first occurrence per base" *)
 FirstWins == \A i \in DOMAIN defs : \A j \in DOMAIN defs : (j < i /\ Base(defs[j].label) = Base(defs[i].label)) => Resolve(defs, defs[i].label) # i
 
+(* a word that would start a block if a reflow put it at the beginning of a line (an HTML block of kinds 2-4 may interrupt a
+   paragraph): the class C10 sets aside *)
+RECURSIVE HasSubStr(_, _)
+HasSubStr(t, p) == Len(t) >= Len(p) /\ (SubSeq(t, 1, Len(p)) = p \/ HasSubStr(SubSeq(t, 2, Len(t)), p))
+StartWordTag == IF \E i \in DOMAIN src : HasSubStr(src[i], "<!---->") \/ HasSubStr(src[i], "<??>") \/ HasSubStr(src[i], "<!a b>")
+                THEN {"word-that-starts-a-block"} ELSE {}
 Export == phase = "done" =>
-    PrintT(ToJson([src |-> Join(src, "\n") \o "\n", html |-> Html, lines |-> Lines, defs |-> Footnotes, tags |-> tags, nblocks |-> nblocks]))
+    PrintT(ToJson([src |-> Join(src, "\n") \o "\n", html |-> Html, lines |-> Lines, defs |-> Footnotes, tags |-> tags \cup StartWordTag, nblocks |-> nblocks]))
 =============================================================================
